@@ -505,6 +505,6 @@ func init() {
 		Level:       "other",
 		Explanation: "Decides, on all paths: Acquire/Release pairing (or hand-over to a wrapper whose Close releases); every obtained build directory closed once or handed over; wrapper Close methods discharge everything they own on every path including removal of the per-action directory; the IdleInvoker monitor's shape (clean() lock protocol and channel ordering; clean only under a fresh use-count-zero test; Acquire waits for cleanings, counts itself only after a successful clean; Release decrements first). Mutual exclusion over all interleavings follows from the monitor shape by a standard argument that is not mechanised here.",
 		Assumptions: []string{"BuildDirectory implementations remove what RemoveAll is asked to remove", "the lock model of C14"},
-		Rules:       []RuleFunc{c12Acquire, c12Directories, c12WrapperClose, c12Monitor, c12AcquireFirst, freshMkdir, c12CloseOrder, c12CleanAlwaysInvokes},
+		Rules:       []RuleFunc{c12Acquire, c12Directories, c12WrapperClose, c12Monitor, c12AcquireFirst, freshMkdir, c12CloseOrder, c12CleanAlwaysInvokes, c12ChainKeepsFirstError},
 	})
 }
